@@ -226,6 +226,22 @@ pub const RANGE_EXCEEDS_F64: &str = "magnitude-above-1e300";
 pub const SINGLETON_NOT_EXTREME: &str = "singleton-extreme-centroid-inside-(min,max)";
 
 fn check_all(ctx: &mut Ctx, d: &mut TDigestMut, expect_total: Option<u64>, mm: Option<(f64, f64)>, class: &str, what: &str, nq: usize) {
+    // A query must not change the answers: the first rank() after a batch of updates (values may still be buffered)
+    // has to equal the same rank() asked again after another query has flushed the buffer.
+    if let Some((mn, mx)) = mm {
+        let probes = [mn, mx, mn / 2.0 + mx / 2.0];
+        let cold: Vec<Option<f64>> = probes.iter().map(|v| d.rank(*v)).collect();
+        let _ = d.quantile(0.5);
+        let warm: Vec<Option<f64>> = probes.iter().map(|v| d.rank(*v)).collect();
+        ctx.evals(1);
+        let same = cold.iter().zip(&warm).all(|(a, b)| a.map(f64::to_bits) == b.map(f64::to_bits));
+        if !same {
+            ctx.violation(
+                &if class.is_empty() { "rank() answers differently before and after another query".to_string() } else { format!("rank() answers differently before and after another query | class={}", class) },
+                format!("{}: rank at min / max / midrange {:?} first, {:?} after quantile(0.5)", what, cold, warm),
+            );
+        }
+    }
     let cent = match centroids_of(d) {
         Ok(c) => c,
         Err(e) => {
@@ -270,11 +286,18 @@ fn history_case(ctx: &mut Ctx, case: &Json) {
     let shape = case.str("shape").unwrap_or("uniform").to_string();
     let n = case.u64("n").unwrap_or(1000) as usize;
     let nq = case.u64("nq").unwrap_or(500) as usize;
-    let mut d = TDigestMut::new(k);
+    // both constructors; a quarter of the streams mirrored (all-negative data for the shapes that are positive)
+    let mut d = if case.u64("seed").unwrap_or(0) % 2 == 0 { TDigestMut::new(k) } else { TDigestMut::try_new(k).expect("documented k") };
     let mut offered: u64 = 0;
     let mut mn = f64::INFINITY;
     let mut mx = f64::NEG_INFINITY;
-    let values = gen_values(&mut rng, &shape, n);
+    let mut values = gen_values(&mut rng, &shape, n);
+    if case.u64("seed").unwrap_or(0) % 4 >= 2 && case.u64("seed").unwrap_or(0) % 8 >= 6 {
+        for v in values.iter_mut() {
+            *v = -*v;
+        }
+        ctx.cover("stream_mirrored");
+    }
     let checkpoints: Vec<usize> = {
         let mut c = vec![1usize, 2, 3, 5, 17, 100];
         let mut x = 300;
